@@ -3,7 +3,7 @@
 # worktree of /repo HEAD and run the relevant checks there (VERIF_REPO / VERIF_DIR point away from /repo and /verif).
 export GOFLAGS=-mod=mod GOPROXY=off GOSUMDB=off GOTOOLCHAIN=local
 dir=$1; shift
-vd=$(mktemp -d /tmp/vdir.XXXXXX); mkdir -p $vd/evidence; cp /verif/known_findings.txt $vd/; cp -r /verif/replay $vd/ 2>/dev/null
+vd=$(mktemp -d /tmp/vdir.XXXXXX); mkdir -p $vd/evidence; cp /verif/known_findings.txt /verif/localsigs.json $vd/; cp -r /verif/replay $vd/ 2>/dev/null
 for d in $dir/*.diff; do
   n=$(basename $d .diff)
   [ -n "$ONLY" ] && [[ ! "$n" =~ $ONLY ]] && continue
